@@ -101,6 +101,12 @@ TRestart ==
   /\ ObsOK(Ev.obs, TRUE, "fresh cache rebuilt from the persisted objects = the live scheduler's state")
   /\ UNCHANGED cfg
 
+\* the same rebuild run again on another fresh cache came out differently: the demand is the same
+TReprobe ==
+  /\ IsEvent("reprobe")
+  /\ UNCHANGED vars
+  /\ ObsOK(Ev.obs, TRUE, "fresh cache rebuilt from the persisted objects = the live scheduler's state")
+
 TTake ==
   /\ IsEvent("take")
   /\ Expect(TakeOK(ToSet(Ev.avail), Ev.n, Ev.result.ok, ToSet(Ev.result.cpus)),
@@ -125,6 +131,6 @@ TPolicy ==
   /\ UNCHANGED vars
 
 TraceInit == \E i \in Starts : TraceStart(i) /\ InitWith(Trace[i])
-TraceNext == TAlloc \/ TUpdate \/ TRelease \/ TRestart \/ TTake \/ TDist \/ TPolicy \/ (SegDone /\ UNCHANGED vars)
+TraceNext == TAlloc \/ TUpdate \/ TRelease \/ TRestart \/ TReprobe \/ TTake \/ TDist \/ TPolicy \/ (SegDone /\ UNCHANGED vars)
 TraceSpec == TraceInit /\ [][TraceNext]_<<vars, tvars>>
 =============================================================================
